@@ -121,6 +121,10 @@ class StoreModel:
             return {'closure': closure, 'recompute_objs': objs}
         return {'closure': closure, 'recompute_objs': None}
 
+    def unlink(self, slot, fn):
+        s = self.slots[slot]
+        self.stored.pop(self.obj(s['model'], fn), None)
+
     def has_data(self, slot, fn):
         s = self.slots[slot]
         m = s['model']
@@ -235,6 +239,16 @@ class Exec:
                 # the model replays the recompute in the order the implementation chose (any order is allowed)
                 order = [r[0] for r in rt.log[mark:]]
                 exp['recompute_runs'] = self._model_recompute(slot, exp, order)
+        elif kind == 'unlink':
+            # environment action: somebody removes a stored result from the data directory (not through the library)
+            _, slot, fn = op
+            self.model.unlink(slot, fn)
+            p = self.slots[slot].tasks[fn].data_path
+            if p is not None and (p.exists() or p.is_symlink()):
+                if p.is_dir():
+                    shutil.rmtree(p)
+                else:
+                    p.unlink()
         elif kind == 'inspect':
             _, slot = op
             ch = self.slots[slot]
